@@ -145,8 +145,8 @@ def w2(ctx):
             r = strip_role(b.role_of_rvalue(s["rv"]))
             ok = False
             if isinstance(r, tuple) and r[0] == "call" and len(r[3]) >= 2:
-                rec_args = [a for a in r[3] if any(isinstance(x, tuple) and x[0] == "call" and x[1] == b.name for x in role_walk(a))]
-                old_args = [a for a in r[3] if not any(isinstance(x, tuple) and x[0] == "call" and x[1] == b.name for x in role_walk(a)) and role_mentions_param(a, pname)]
+                rec_args = [a for a in r[3] if any(isinstance(x, tuple) and x[0] == "call" and x[1] in (b.name, crate.aliases.get(b.id)) for x in role_walk(a))]
+                old_args = [a for a in r[3] if not any(isinstance(x, tuple) and x[0] == "call" and x[1] in (b.name, crate.aliases.get(b.id)) for x in role_walk(a)) and role_mentions_param(a, pname)]
                 ok = bool(rec_args) and bool(old_args)
                 if ok:
                     io, ir = r[3].index(old_args[0]), r[3].index(rec_args[0])
